@@ -220,7 +220,7 @@ def rule_e(ctx, cr):
 
     def gos(bb):
         for c in g.conds_at(bb):
-            if c[0] == "eq" and "arg:is_gosub" in str(c[1]):
+            if c[0] == "eq" and "arg:5" in str(c[1]):
                 return c[2]
         return None
     ok = len(rets) == 1 and gos(prv[0].bb) is True and gos(rets[0].bb) is True and \
